@@ -82,6 +82,14 @@ def expect_state(base, changes):
 
 def check_valid(ctx, rng, stream, pairs, changes, dev_state, display=True, want_display=None):
     """pairs: list of 'name=value'; changes: expected device state changes"""
+    # every requested value is a REAL change: the unit starts from a state that differs in each requested field
+    # (otherwise a setting that is silently dropped would go unnoticed whenever the unit happened to be there already)
+    dev_state = dict(dev_state)
+    alt = {"power": [0, 1], "mode": [1, 2, 3, 4, 5], "temp": [40, 44, 50], "fan": [20, 40, 60, 80, 102], "swing": [0, 3, 12, 15],
+           "hum": [35, 45, 60], "aux": [0, 1, 2]}
+    for k, v in changes.items():
+        if dev_state.get(k) == v:
+            dev_state[k] = next(x for x in alt.get(k, [0, 1]) if x != v)
     code, model, dev, contacted = run_cli(ctx, pairs, dev_state=dev_state, display=display)
     inp = {"settings": pairs, "device_state_before": dev_state}
     before = specac.SpecAC(ctx, state=dev_state).state
@@ -118,6 +126,42 @@ def check_invalid(ctx, rng, stream, pairs):
             ctx.disagree(stream, inp, f"exit {code}", ms)
     ctx.count(f"{stream}:exit={code}")
     ctx.case(stream, key=tuple(pairs), sample={"settings": pairs, "exit": code})
+
+
+def prop_writes(model):
+    """{property id: value bytes} of every 0xB0 write the simulated unit received"""
+    out = []
+    for kind, frame in model.received:
+        if kind != "props":
+            continue
+        body = bytes(frame)[10:-3]
+        if body[0] != 0xB0:
+            continue
+        n, i, recs = body[1], 2, {}
+        for _ in range(n):
+            if i + 3 > len(body):
+                break
+            pid, ln = body[i] | (body[i + 1] << 8), body[i + 2]
+            recs[pid] = bytes(body[i + 3:i + 3 + ln])
+            i += 3 + ln
+        out.append(recs)
+    return out
+
+
+def check_prop(ctx, rng, stream, pair, pid, want_value):
+    """a property-protocol setting given on the command line reaches the unit as a 0xB0 write of that property with that
+    value - whatever the value is (the defaults / 'off' members included: the CLI cannot know what the unit has now)"""
+    code, model, dev, contacted = run_cli(ctx, [pair], dev_state=rand_dev_state(rng))
+    inp = {"settings": [pair]}
+    writes = prop_writes(model)
+    got = [w[pid] for w in writes if pid in w]
+    if code != 0:
+        ctx.violate(stream, inp, {"exit": code}, {"exit": 0}, "valid setting rejected / control failed")
+    elif len(got) != 1 or got[0][:len(want_value)] != want_value:
+        ctx.violate(stream, inp, {"writes_of_property": [hx(g) for g in got], "all_writes": [{hex(k): hx(v) for k, v in w.items()} for w in writes]},
+                    {"property": hex(pid), "value": hx(want_value)}, "requested property setting was not written to the unit exactly once")
+    ctx.count(f"{stream}:exit={code}")
+    ctx.case(stream, key=(pair,), sample={"setting": pair, "exit": code, "writes": len(writes)})
 
 
 def rand_dev_state(rng):
@@ -195,6 +239,18 @@ def run(ctx):
             line.insert(rng.randrange(len(line) + 1), "fan_speed=%d" % 37)
             changes["fan"] = 37
         check_valid(ctx, rng, "enum_lines", line, changes, rand_dev_state(rng))
+    # property-protocol settings: every member (the default / off members too), by name and by number
+    for name, pid, enum in (("horizontal_swing_angle", 0x000A, AC.SwingAngle), ("vertical_swing_angle", 0x0009, AC.SwingAngle),
+                            ("rate_select", 0x0048, AC.RateSelect)):
+        for member in enum:
+            if member.name == "DEFAULT":
+                continue
+            for form in (casing(rng, member.name), str(int(member))):
+                check_prop(ctx, rng, "prop_settings", f"{name}={form}", pid, bytes([int(member)]))
+    for form, val in [("True", 1), ("False", 0), ("1", 1), ("0", 0)]:
+        check_prop(ctx, rng, "prop_settings", f"ieco={form}", 0x00E3, bytes([0, 1, val]))
+        check_prop(ctx, rng, "prop_settings", f"breezeless={form}", 0x0018, bytes([val]))
+        check_prop(ctx, rng, "prop_settings", f"breeze_away={form}", 0x0042, bytes([2 if val else 1]))
     # invalid names and values: rejected with non-zero exit before anything is sent
     invalid = ["nonsense=1", "online=True", "supported_operation_modes=1", "indoor_temperature=20", "min_target_temperature=16",
                "operational_mode=warp", "operational_mode=9", "swing_mode=7", "swing_mode=diagonal", "aux_mode=5",
